@@ -26,6 +26,9 @@ pub const NOE: u32 = 1 << 14; // failed parse without any error / errors() incon
 pub const MAL: u32 = 1 << 15; // malformed span (start > end, outside input, not on a token boundary)
 pub const ZCP: u32 = 1 << 16; // slice not inside the caller's buffer
 pub const ECN: u32 = 1 << 17; // number of errors on a failed parse is zero or (EmptyErr) count differs
+pub const CON: u32 = 1 << 18; // ParseResult contract (has_output / has_errors / into_result) violated
+pub const LAZ: u32 = 1 << 19; // lazy(): accepts iff the grammar matches a prefix, with that prefix's output
+pub const DIF: u32 = 1 << 20; // differential pair disagrees
 
 pub const CAT_NAMES: &[(&str, u32)] = &[
     ("accept", ACC),
@@ -46,6 +49,9 @@ pub const CAT_NAMES: &[(&str, u32)] = &[
     ("malformed_span", MAL),
     ("zero_copy", ZCP),
     ("error_count", ECN),
+    ("result_contract", CON),
+    ("lazy_prefix", LAZ),
+    ("pair_differs", DIF),
 ];
 
 pub fn cat_names(mask: u32) -> Vec<&'static str> {
@@ -63,6 +69,10 @@ pub struct RawObs {
     pub st: Option<(u32, u64)>,
     pub chk_st: Option<(u32, u64)>,
     pub panic: Option<String>,
+    /// description of a violated ParseResult invariant (C03)
+    pub contract: Option<String>,
+    /// `p.lazy().parse(w)`: (output, number of errors); only when the job asks for it
+    pub lazy: Option<(Option<Val>, usize)>,
 }
 
 pub fn panic_msg(e: Box<dyn std::any::Any + Send>) -> String {
@@ -75,17 +85,42 @@ pub fn panic_msg(e: Box<dyn std::any::Any + Send>) -> String {
     }
 }
 
-pub fn run_case<'a, I: InK<'a>, C: Cfg<'a, I>>(p: &BP<'a, I, C>, mk: &dyn Fn() -> I) -> RawObs {
+pub fn run_case<'a, I: InK<'a>, C: Cfg<'a, I>>(p: &BP<'a, I, C>, mk: &dyn Fn() -> I, lazy: bool) -> RawObs {
     let r = catch_unwind(AssertUnwindSafe(|| {
         let mut st = <C::St as Default>::default();
-        let (out, errs) = p.parse_with_state(mk(), &mut st).into_output_errors();
+        let res = p.parse_with_state(mk(), &mut st);
+        let (ho, he) = (res.has_output(), res.has_errors());
+        let ne = res.errors().len();
+        let ok = res.clone().into_result().is_ok();
+        let mut contract = None;
+        if he != (ne > 0) {
+            contract = Some(format!("has_errors()={he} but errors().len()={ne}"));
+        } else if !ho && ne == 0 {
+            contract = Some("no output and no error".to_string());
+        } else if he && ok {
+            contract = Some("has_errors() but into_result() is Ok".to_string());
+        } else if !he && !ho {
+            contract = Some("error-free result without output".to_string());
+        } else if ok != (ho && !he) {
+            contract = Some(format!("into_result().is_ok()={ok} with has_output={ho} has_errors={he}"));
+        } else if res.output().is_some() != ho {
+            contract = Some("output() disagrees with has_output()".to_string());
+        }
+        let (out, errs) = res.into_output_errors();
         let errs: Vec<ObsErr> = errs.iter().map(|e| <C::Err as ErrK<'a, I>>::obs(e)).collect();
         let s1 = st.obs();
         let mut st2 = <C::St as Default>::default();
         let c = p.check_with_state(mk(), &mut st2);
         let chk_out = c.has_output();
         let chk_errs: Vec<ObsErr> = c.errors().map(|e| <C::Err as ErrK<'a, I>>::obs(e)).collect();
-        RawObs { out, errs, chk_out, chk_errs, st: s1, chk_st: st2.obs(), panic: None }
+        let lz = if lazy {
+            let mut st3 = <C::St as Default>::default();
+            let (o, e) = p.clone().lazy().parse_with_state(mk(), &mut st3).into_output_errors();
+            Some((o, e.len()))
+        } else {
+            None
+        };
+        RawObs { out, errs, chk_out, chk_errs, st: s1, chk_st: st2.obs(), panic: None, contract, lazy: lz }
     }));
     match r {
         Ok(o) => o,
@@ -282,6 +317,9 @@ pub fn compare(kind: EK, obs: &RawObs, m: &Outcome, len: usize) -> u32 {
     if obs.out.is_none() && obs.errs.is_empty() {
         mask |= NOE | ECN;
     }
+    if obs.contract.is_some() || (!obs.chk_out && obs.chk_errs.is_empty()) {
+        mask |= CON;
+    }
     // direct well-formedness of error spans
     if kind != EK::Empty {
         for e in &obs.errs {
@@ -325,7 +363,9 @@ pub fn compare(kind: EK, obs: &RawObs, m: &Outcome, len: usize) -> u32 {
         (None, None) => {
             // only the last (primary) error of a failed parse is specified
             if let (Some(e), Some(p)) = (obs.errs.last(), &m.primary) {
-                mask |= cmp_err(kind, e, p, false);
+                if !m.failed_without_alt {
+                    mask |= cmp_err(kind, e, p, false);
+                }
             }
         }
         _ => unreachable!(),
@@ -359,6 +399,7 @@ pub struct Acc {
     pub mismatches: Vec<Mismatch>,
     pub mismatch_count: u64,
     pub mismatch_by_cat: std::collections::BTreeMap<&'static str, u64>,
+    pub explained_counts: std::collections::BTreeMap<String, u64>,
     pub samples: Vec<String>,
     pub distinct_outcomes: std::collections::HashSet<u64>,
 }
@@ -383,6 +424,71 @@ pub struct Job<'j> {
     pub stride: usize,
     /// grammar indices to skip (they reproducibly kill the worker process; reported separately)
     pub skip: &'j [usize],
+    /// also run `p.lazy()` and compare with the model's prefix match (C03)
+    pub lazy: bool,
+    /// differential mode: `grammars[2k]` and `grammars[2k+1]` must behave identically under `pair_mode`
+    pub pair_mode: Option<PairMode>,
+}
+
+#[derive(Clone, Copy, Debug, PartialEq, Eq)]
+pub enum PairMode {
+    /// outputs and complete error lists identical, for parse and check (C04, C11)
+    Exact,
+    /// acceptance, outputs, number of errors and error spans identical (C17)
+    Shape,
+}
+
+pub fn pair_mode_name(m: Option<PairMode>) -> &'static str {
+    match m {
+        None => "",
+        Some(PairMode::Exact) => "exact",
+        Some(PairMode::Shape) => "shape",
+    }
+}
+pub fn pair_mode_from(s: &str) -> Option<PairMode> {
+    match s {
+        "exact" => Some(PairMode::Exact),
+        "shape" => Some(PairMode::Shape),
+        _ => None,
+    }
+}
+
+fn pair_diff(mode: PairMode, a: &RawObs, b: &RawObs) -> Option<String> {
+    if a.panic.is_some() || b.panic.is_some() {
+        return if a.panic.is_some() != b.panic.is_some() { Some("one side panicked".into()) } else { None };
+    }
+    let sp = |v: &Vec<ObsErr>| v.iter().map(|e| e.span).collect::<Vec<_>>();
+    match mode {
+        PairMode::Exact => {
+            if a.out != b.out {
+                return Some("outputs differ".into());
+            }
+            if a.errs != b.errs {
+                return Some("error lists differ".into());
+            }
+            if a.chk_out != b.chk_out || a.chk_errs != b.chk_errs {
+                return Some("check() results differ".into());
+            }
+            if a.st != b.st {
+                return Some("final states differ".into());
+            }
+        }
+        PairMode::Shape => {
+            if a.out != b.out {
+                return Some("acceptance or outputs differ".into());
+            }
+            if a.errs.len() != b.errs.len() {
+                return Some("number of errors differs".into());
+            }
+            if sp(&a.errs) != sp(&b.errs) {
+                return Some("error spans differ".into());
+            }
+            if a.chk_out != b.chk_out || sp(&a.chk_errs) != sp(&b.chk_errs) {
+                return Some("check() results differ".into());
+            }
+        }
+    }
+    None
 }
 
 fn hash_outcome(o: &Outcome) -> u64 {
@@ -419,6 +525,66 @@ fn classify(g: &G, toks: &[Tok], probes: Probes, known: Sw, kind: EK, obs: &RawO
     needed
 }
 
+/// Run one case on the implementation and normalise spans/offsets to token indices.
+/// Returns the observation plus (malformed spans, slices outside the buffer).
+#[allow(clippy::too_many_arguments)]
+fn observe<'a, I: InK<'a>, C: Cfg<'a, I>>(
+    p: &BP<'a, I, C>,
+    ii: usize,
+    lazy: bool,
+    mk: &dyn Fn(usize) -> I,
+    buf: &dyn Fn(usize) -> (usize, usize),
+    norm: &dyn Fn(usize, (usize, usize), bool) -> Option<(usize, usize)>,
+    unrender: &dyn Fn(char) -> char,
+) -> (RawObs, u32, u32) {
+    BUF.with(|b| b.set(buf(ii)));
+    let mut obs = run_case::<I, C>(p, &|| mk(ii), lazy);
+    let nf = |s: (usize, usize), off: bool| norm(ii, s, off);
+    let mut bad = (0, 0);
+    if let Some(v) = obs.out.as_mut() {
+        bad = norm_val(v, &nf, unrender);
+    }
+    if let Some((Some(v), _)) = obs.lazy.as_mut() {
+        let b2 = norm_val(v, &nf, unrender);
+        bad = (bad.0 + b2.0, bad.1 + b2.1);
+    }
+    let mut bad_e = 0;
+    for e in obs.errs.iter_mut().chain(obs.chk_errs.iter_mut()) {
+        bad_e += norm_err(e, &nf);
+        e.found = e.found.map(unrender);
+        for x in e.exp.iter_mut() {
+            if let OExp::Tok(c) = x {
+                *c = unrender(*c);
+            }
+        }
+    }
+    (obs, bad.0 + bad_e, bad.1)
+}
+
+fn record(acc: &mut Acc, job: &Job, hit: u32, g: &G, toks: &[Tok], detail: String, explained_by: Vec<&'static str>) {
+    acc.mismatch_count += 1;
+    for n in cat_names(hit) {
+        *acc.mismatch_by_cat.entry(n).or_default() += 1;
+    }
+    *acc.explained_counts.entry(if explained_by.is_empty() { "UNEXPLAINED".to_string() } else { explained_by.join("+") }).or_default() += 1;
+    let keep = acc.mismatches.len() < MAX_KEPT
+        || (explained_by.is_empty() && acc.mismatches.iter().filter(|x| x.explained_by.is_empty()).count() < MAX_KEPT);
+    if keep {
+        acc.mismatches.push(Mismatch { mask: hit, grammar: g.to_string(), input: toks.iter().collect(), kind: job.kind_name, cfg: job.cfg_name, detail, explained_by });
+    }
+}
+
+fn try_build<'a, I: InK<'a>, C: Cfg<'a, I>>(g: &G, job: &Job, acc: &mut Acc) -> Option<BP<'a, I, C>> {
+    match catch_unwind(AssertUnwindSafe(|| build::<I, C>(g, job.probes))) {
+        Ok(p) => Some(p),
+        Err(e) => {
+            acc.panics += 1;
+            record(acc, job, PAN, g, &[], format!("panic while building the parser: {}", panic_msg(e)), vec![]);
+            None
+        }
+    }
+}
+
 pub fn run_generic<'a, I: InK<'a>, C: Cfg<'a, I>>(
     job: &Job,
     mk: &dyn Fn(usize) -> I,
@@ -427,6 +593,9 @@ pub fn run_generic<'a, I: InK<'a>, C: Cfg<'a, I>>(
     unrender: &dyn Fn(char) -> char,
     acc: &mut Acc,
 ) {
+    if let Some(mode) = job.pair_mode {
+        return run_pairs::<I, C>(job, mode, mk, buf, norm, unrender, acc);
+    }
     let kind = <C::Err as ErrK<'a, I>>::KIND;
     let mut gi = job.first;
     while gi < job.grammars.len() {
@@ -436,26 +605,9 @@ pub fn run_generic<'a, I: InK<'a>, C: Cfg<'a, I>>(
         }
         let g = &job.grammars[gi];
         (job.progress)(gi);
-        let p = match catch_unwind(AssertUnwindSafe(|| build::<I, C>(g, job.probes))) {
-            Ok(p) => p,
-            Err(e) => {
-                acc.panics += 1;
-                acc.mismatch_count += 1;
-                *acc.mismatch_by_cat.entry("panic").or_default() += 1;
-                if acc.mismatches.len() < MAX_KEPT {
-                    acc.mismatches.push(Mismatch {
-                        mask: PAN,
-                        grammar: g.to_string(),
-                        input: String::new(),
-                        kind: job.kind_name,
-                        cfg: job.cfg_name,
-                        detail: format!("panic while building the parser: {}", panic_msg(e)),
-                        explained_by: vec![],
-                    });
-                }
-                gi += job.stride;
-                continue;
-            }
+        let Some(p) = try_build::<I, C>(g, job, acc) else {
+            gi += job.stride;
+            continue;
         };
         let has_not = job.skip_not_content && g.contains_not();
         let content_mask = if has_not { !(PSP | PFO | PEX | PCX | EMC) } else { !0 };
@@ -467,29 +619,21 @@ pub fn run_generic<'a, I: InK<'a>, C: Cfg<'a, I>>(
                 acc.unspecified += 1;
                 continue;
             }
-            BUF.with(|b| b.set(buf(ii)));
-            let mut obs = run_case::<I, C>(&p, &|| mk(ii));
-            let nf = |s: (usize, usize), off: bool| norm(ii, s, off);
-            let mut bad = (0, 0);
-            if let Some(v) = obs.out.as_mut() {
-                bad = norm_val(v, &nf, unrender);
-            }
-            let mut bad_e = 0;
-            for e in obs.errs.iter_mut().chain(obs.chk_errs.iter_mut()) {
-                bad_e += norm_err(e, &nf);
-                e.found = e.found.map(unrender);
-                for x in e.exp.iter_mut() {
-                    if let OExp::Tok(c) = x {
-                        *c = unrender(*c);
-                    }
-                }
-            }
+            let (obs, bad_sp, bad_sl) = observe::<I, C>(&p, ii, job.lazy, mk, buf, norm, unrender);
             let mut mask = compare(kind, &obs, &m, toks.len());
-            if bad.0 > 0 || bad_e > 0 {
+            if bad_sp > 0 {
                 mask |= MAL;
             }
-            if bad.1 > 0 {
+            if bad_sl > 0 {
                 mask |= ZCP;
+            }
+            let mut lazy_model = None;
+            if let Some((lo, _)) = &obs.lazy {
+                let lm = sem::parse_lazy(g, toks, Sw::NONE, job.probes).map(|(_, v)| v);
+                if *lo != lm {
+                    mask |= LAZ;
+                }
+                lazy_model = Some(lm);
             }
             if obs.panic.is_some() {
                 acc.panics += 1;
@@ -521,41 +665,106 @@ pub fn run_generic<'a, I: InK<'a>, C: Cfg<'a, I>>(
             }
             let hit = mask & job.alarm & content_mask;
             if hit != 0 {
-                acc.mismatch_count += 1;
-                for n in cat_names(hit) {
-                    *acc.mismatch_by_cat.entry(n).or_default() += 1;
-                }
-                let explained_by = classify(g, toks, job.probes, job.known, kind, &obs, job.alarm, content_mask);
-                let keep = acc.mismatches.len() < MAX_KEPT
-                    || (explained_by.is_empty() && acc.mismatches.iter().filter(|x| x.explained_by.is_empty()).count() < MAX_KEPT);
-                if keep {
-                    acc.mismatches.push(Mismatch {
-                        mask: hit,
-                        grammar: g.to_string(),
-                        input: toks.iter().collect(),
-                        kind: job.kind_name,
-                        cfg: job.cfg_name,
-                        detail: format!(
-                            "categories={:?}\n  impl : out={:?} errs={:?} check=({}, {:?}) state={:?} panic={:?}\n  model: out={:?} emitted={:?} primary={:?} state={:?}",
-                            cat_names(hit),
-                            obs.out,
-                            obs.errs,
-                            obs.chk_out,
-                            obs.chk_errs,
-                            obs.st,
-                            obs.panic,
-                            m.output,
-                            m.emitted,
-                            m.primary,
-                            m.final_state
-                        ),
-                        explained_by,
-                    });
-                }
+                let explained_by = classify(g, toks, job.probes, job.known, kind, &obs, job.alarm & !LAZ, content_mask);
+                let detail = format!(
+                    "categories={:?}\n  impl : out={:?} errs={:?} check=({}, {:?}) state={:?} panic={:?} contract={:?} lazy={:?}\n  model: out={:?} emitted={:?} primary={:?} state={:?} lazy={:?}",
+                    cat_names(hit),
+                    obs.out,
+                    obs.errs,
+                    obs.chk_out,
+                    obs.chk_errs,
+                    obs.st,
+                    obs.panic,
+                    obs.contract,
+                    obs.lazy,
+                    m.output,
+                    m.emitted,
+                    m.primary,
+                    m.final_state,
+                    lazy_model
+                );
+                record(acc, job, hit, g, toks, detail, explained_by);
             }
         }
         drop(p);
         gi += job.stride;
+    }
+}
+
+/// Differential mode: `grammars[2k]` vs `grammars[2k+1]` on every input (no model involved,
+/// except for skipping the unspecified corners).
+#[allow(clippy::too_many_arguments)]
+fn run_pairs<'a, I: InK<'a>, C: Cfg<'a, I>>(
+    job: &Job,
+    mode: PairMode,
+    mk: &dyn Fn(usize) -> I,
+    buf: &dyn Fn(usize) -> (usize, usize),
+    norm: &dyn Fn(usize, (usize, usize), bool) -> Option<(usize, usize)>,
+    unrender: &dyn Fn(char) -> char,
+    acc: &mut Acc,
+) {
+    let npairs = job.grammars.len() / 2;
+    let mut pi = job.first;
+    while pi < npairs {
+        if job.skip.contains(&pi) {
+            pi += job.stride;
+            continue;
+        }
+        (job.progress)(pi);
+        let (ga, gb) = (&job.grammars[2 * pi], &job.grammars[2 * pi + 1]);
+        let (Some(pa), Some(pb)) = (try_build::<I, C>(ga, job, acc), try_build::<I, C>(gb, job, acc)) else {
+            pi += job.stride;
+            continue;
+        };
+        for (ii, toks) in job.inputs.iter().enumerate() {
+            acc.cases += 1;
+            // the model is consulted only for the unspecified-corner flag and the anti-vacuity counters
+            let (m, st) = sem::parse(ga, toks, Sw::NONE, job.probes);
+            acc.stats.add(&st);
+            if m.unspecified {
+                acc.unspecified += 1;
+                continue;
+            }
+            let (oa, _, _) = observe::<I, C>(&pa, ii, false, mk, buf, norm, unrender);
+            let (ob, _, _) = observe::<I, C>(&pb, ii, false, mk, buf, norm, unrender);
+            if oa.out.is_some() {
+                acc.accepted += 1;
+                if !oa.errs.is_empty() {
+                    acc.with_emissions += 1;
+                }
+            } else {
+                acc.rejected += 1;
+            }
+            if oa.panic.is_some() || ob.panic.is_some() {
+                acc.panics += 1;
+            }
+            if acc.distinct_outcomes.len() < 100_000 {
+                acc.distinct_outcomes.insert(hash_outcome(&m));
+            }
+            if acc.samples.len() < 6 && (acc.cases % 9973 == 1 || (acc.samples.len() < 2 && oa.out.is_some() && !toks.is_empty())) {
+                acc.samples.push(format!(
+                    "{}  vs  {} on {:?} [{}/{}] -> out={:?} errors={}",
+                    ga,
+                    gb,
+                    toks.iter().collect::<String>(),
+                    job.kind_name,
+                    job.cfg_name,
+                    oa.out,
+                    oa.errs.len()
+                ));
+            }
+            if let Some(why) = pair_diff(mode, &oa, &ob) {
+                if job.alarm & DIF != 0 {
+                    let detail = format!(
+                        "{why}\n  A: {}\n     out={:?} errs={:?} check=({}, {:?}) panic={:?}\n  B: {}\n     out={:?} errs={:?} check=({}, {:?}) panic={:?}",
+                        ga, oa.out, oa.errs, oa.chk_out, oa.chk_errs, oa.panic, gb, ob.out, ob.errs, ob.chk_out, ob.chk_errs, ob.panic
+                    );
+                    let pair = cvm::ast::Group(cvm::ast::Coll::Tuple, vec![ga.clone(), gb.clone()]);
+                    record(acc, job, DIF, &pair, toks, detail, vec![]);
+                }
+            }
+        }
+        pi += job.stride;
     }
 }
 
